@@ -203,8 +203,8 @@ func ruleC04R3(r *Run) {
 		if !ok || len(ret.Results) != 2 {
 			return
 		}
-		errNil := isNilConst(ret.Results[1])
-		chunkNil := isNilConst(ret.Results[0])
+		errNil := isNilConst(retResults(ret)[1])
+		chunkNil := isNilConst(retResults(ret)[0])
 		key := fmt.Sprintf("%s return@%s", name, retKind(chunkNil, errNil))
 		if !chunkNil && errNil {
 			r.Check(key, dominatesInstr(push, ret), posOf(p, ret), name, "a chunk is returned: the push of its result must dominate this return (else the chunk is never acknowledged)")
